@@ -182,11 +182,6 @@ class SinglePhaseReservoir(IdealReservoir):
         ------
         ValueError: wrong length changing pressure at frac-face
         """
-        self.time = time
-        if hasattr(self, "recovery"):
-            del self.recovery  # cached recovery belongs to the previous run
-        dx_squared = (1 / self.nx) ** 2
-        pseudopressure = np.empty((len(time), self.nx))
         if pressure_fracface is None:
             pressure_fracface = np.full(len(time), self.pressure_fracface)
         else:
@@ -196,6 +191,11 @@ class SinglePhaseReservoir(IdealReservoir):
                     f" {len(pressure_fracface)} versus {len(time)}"
                 )
                 raise ValueError(msg)
+        self.time = time
+        if hasattr(self, "recovery"):
+            del self.recovery  # cached recovery belongs to the previous run
+        dx_squared = (1 / self.nx) ** 2
+        pseudopressure = np.empty((len(time), self.nx))
         m_i = self.fluid.m_i
         m_f = self.fluid.m_scaled_func(pressure_fracface)
         pseudopressure_initial = np.full(self.nx, m_i)
